@@ -34,6 +34,14 @@ TABLE = {
     ("teos_common::appointment::Locator::new", "index"): (1, "`txid[..LOCATOR_LEN]`: constant 16-byte prefix of a 32-byte Txid"),
     ("teos::dbm::DBM::load_appointments", "index"): (1, "`raw_uuid[0..20]`: the UUID column is the table key and is only ever written from UUID::to_vec (20 bytes) by the tower itself"),
     ("teos::dbm::DBM::load_trackers", "index"): (1, "`raw_uuid[0..20]`: as load_appointments"),
+    ("<teos::gatekeeper::Gatekeeper as lightning::chain::Listen>::block_disconnected", "sub"): (1, "`height - 1`: the height of a disconnected block is at least 1 (the genesis block is never disconnected)"),
+    ("<teos::watcher::Watcher as lightning::chain::Listen>::block_disconnected", "sub"): (1, "`height - 1`: as for the Gatekeeper"),
+    ("teos::dbm::DBM::batch_check_locators_exist", "sub"): (1, "`chunk.len() - 1`: slice::chunks never yields an empty chunk"),
+    ("teos::dbm::DBM::batch_remove_appointments", "sub"): (1, "`chunk.len() - 1`: slice::chunks never yields an empty chunk"),
+    ("teos::dbm::DBM::batch_remove_users", "sub"): (1, "`chunk.len() - 1`: slice::chunks never yields an empty chunk"),
+    ("teos::responder::Responder::check_confirmations", "sub"): (2, "`current_height - h`: h is the height of a block this tower processed; trackers confirmed above a disconnected height sit in the reorged set, which is skipped first (OR2r keeps check_confirmations ahead of the pass that drains that set)"),
+    ("teos::responder::Responder::rebroadcast_stale_txs", "sub"): (1, "`height - CONFIRMATIONS_BEFORE_RETRY`: main refuses to start below height IRREVOCABLY_RESOLVED (100)"),
+    ("teos::tx_index::TxIndex::<K, V>::get_height", "sub"): (1, "`tip + pos + 1 - size`: TH's invariant (tip >= size - 1 from bootstrap on, tip only grows)"),
     ("watchtower_plugin::retrier::Retrier::start", "panic"): (1, "debug_assert_eq!(status, Stopped): compiled out of release builds; the manager thread is the only starter and calls start() only after should_start() saw Stopped"),
 }
 
@@ -49,7 +57,8 @@ def _in_scope(bid, kinds, scope):
     ks = kinds.get(bid) or set()
     if scope == "tower":
         return bool(ks & {"API", "CHAIN"}) or bid.startswith(ADAPTER_PREFIXES["tower"]) or any(("<" + p) in bid or (" " + p) in bid for p in ADAPTER_PREFIXES["tower"][:2])
-    return bool(ks & {"RPC", "MANAGER", "RETRIER"}) or bid.startswith(ADAPTER_PREFIXES["plugin"])
+    # trait impls of the adapters' private types (`<teos_common::ser::serde_be::deserialize::BEVisitor as Visitor>::visit_str`) count too
+    return bool(ks & {"RPC", "MANAGER", "RETRIER"}) or bid.startswith(ADAPTER_PREFIXES["plugin"]) or any(("<" + p) in bid or (" " + p) in bid for p in ADAPTER_PREFIXES["plugin"])
 
 
 def _const_int(term):
@@ -114,12 +123,53 @@ def rule_IX(ctx, tier, scope="tower", name=None):
             if t["k"] == "assert":
                 msg = t.get("msg", "")
                 if msg.startswith("Overflow") or "Overflow" in msg.split("(")[0]:
-                    continue  # arithmetic overflow checks: debug-build only, owned by the arithmetic clauses (SB)
+                    # additions / multiplications: owned by the arithmetic clauses (SB).  Unsigned SUBTRACTIONS are judged here: with
+                    # overflow checks the thread panics (holding its locks), without them the value wraps to something huge
+                    for st_ in b.blocks[bb]["s"]:
+                        rv_ = st_.get("rv") or {}
+                        if st_.get("k") != "assign" or rv_.get("k") != "bin" or not str(rv_.get("op", "")).startswith("Sub"):
+                            continue
+                        ty_ = b.locals[st_["d"][0]]["ty"] if st_.get("d") else ""
+                        if not re.match(r"^\(?(u8|u16|u32|u64|u128|usize)\b", ty_):
+                            continue
+                        a0, a1 = og.strip(ctx.og.operand(b, rv_["a"])), og.strip(ctx.og.operand(b, rv_["b"]))
+                        ca, cb = _const_int(a0), _const_int(a1)
+                        if ca is not None and cb is not None and ca >= cb:
+                            continue
+                        guarded = any(o in ("Ge", "Gt") and og.strip(x) == a0 and og.strip(y) == a1 for f in facts_at(ctx, b, bb) if f[0] == "truth" for (o, x, y) in rel_of_term(f[1], f[2]))
+                        if not guarded and cb == 1:
+                            # `n -= 1` while `!s.is_char_boundary(n)`: 0 is always a boundary, so n > 0 on this path
+                            guarded = any(f[0] == "truth" and f[2] is False and isinstance(og.strip(f[1]), tuple) and og.strip(f[1])[0] == "call" and og.strip(f[1])[1].endswith("is_char_boundary")
+                                          and a0 in [og.strip(z) for z in og.strip(f[1])[2]] for f in facts_at(ctx, b, bb))
+                        if guarded:
+                            rr.ok("%s: subtraction under minuend >= subtrahend" % shortfn(fn))
+                            continue
+                        key = (re.sub(r"(::\{closure#\d+\})+$", "", fn), "sub")   # a loop body turned into a closure is the same site
+                        used[key] = used.get(key, 0) + 1
+                        if key in TABLE and used[key] <= TABLE[key][0]:
+                            rr.ok("%s: unsigned subtraction [%s]" % (shortfn(fn), TABLE[key][1]))
+                        else:
+                            rr.fail("unguarded-subtraction:%s" % shortfn(fn), "`%s` computes `%s - %s` on an unsigned type and nothing on the path establishes minuend >= subtrahend: with overflow checks the thread panics while holding its locks, without them the value wraps" % (shortfn(fn), og.show(a0)[:40], og.show(a1)[:40]), where=t.get("line"))
+                    continue
                 m = re.match(r"BoundsCheck \{ len: const (\d+)_usize, index: (?:copy|move) _(\d+) \}", msg)
                 if m:
                     ix = _const_int(ctx.og.local(b, int(m.group(2))))
                     if ix is not None and ix < int(m.group(1)):
                         rr.ok("%s: constant index %d into an array of %s" % (shortfn(fn), ix, m.group(1)), nontrivial=False)
+                        continue
+                if msg.startswith(("DivisionByZero", "RemainderByZero")):
+                    # the divisor: a non-zero constant, or a parameter that every caller binds to a non-zero constant
+                    nz = False
+                    for st_ in b.blocks[t["t"]]["s"] if t.get("t") is not None else []:
+                        if st_.get("k") == "assign" and st_["rv"].get("k") == "bin" and st_["rv"].get("op") in ("Div", "Rem"):
+                            dv = og.strip(ctx.og.operand(b, st_["rv"]["b"]))
+                            cands = [dv]
+                            if isinstance(dv, tuple) and dv and dv[0] == "param":
+                                cands = [og.strip(x) for _, x in ctx.og.param_sources(dv[1], dv[2])] or [dv]
+                            if cands and all(_const_int(c_) not in (None, 0) for c_ in cands):
+                                nz = True
+                    if nz:
+                        rr.ok("%s: division by a non-zero constant (at every call site)" % shortfn(fn), nontrivial=False)
                         continue
                 key = (fn, "assert")
                 used[key] = used.get(key, 0) + 1
